@@ -82,15 +82,15 @@ Section Two.
     intro l. apply (stable_sort_unique (lex2 le1 le2) TL RL).
     - apply lex2_sorted_char.
       + apply (S_sort_sorted le1 T1 R1).
-      + intro x. rewrite (S_sort_stable le1 T1 R1). apply StronglySorted_filter.
+      + intro x. rewrite (S_sort_stable le1 R1). apply StronglySorted_filter.
         apply (S_sort_sorted le2 T2 R2).
     - intro x.
       rewrite (filter_ext _ (fun y => eqv le1 x y && eqv le2 x y)) by (intro; apply eqv_lex2).
       rewrite (filter_ext (eqv (lex2 le1 le2) x) (fun y => eqv le1 x y && eqv le2 x y)) by (intro; apply eqv_lex2).
       rewrite !filter_andb.
-      rewrite (S_sort_stable le1 T1 R1).
+      rewrite (S_sort_stable le1 R1).
       rewrite (filter_comm (eqv le2 x) (eqv le1 x) (S_sort le2 l)).
-      rewrite (S_sort_stable le2 T2 R2).
+      rewrite (S_sort_stable le2 R2).
       apply filter_comm.
   Qed.
 End Two.
